@@ -25,6 +25,7 @@ var gGivenModes = []string{"", "JRWPS", "JRWP", "JWP", "JRP", "JRW", "RWP", "N",
 func c02Gen(rt *rapid.T) wProg {
 	p := wProg{}
 	p.Cfg = wConfig{Users: 4, Root: gPct(rt, 35), Media: true}
+	gLat(rt, &p, 25)
 	p.Sess = append([]int(nil), gPick(rt, [][]int{{0, 1, 2}, {0, 0, 1, 2}, {0, 1, 1, 2}, {0, 1, 2, 3}, {0, 0, 1, 1, 2, 3}, {0, 1, 2, 2, 3}}, "layout")...)
 	// some connections talk protobuf (the gRPC endpoint's conversion both ways)
 	for k := range p.Sess {
